@@ -1,6 +1,6 @@
 From Coq Require Import Extraction ExtrOcamlBasic.
-From PV Require Import Base.IO Info.InfoDefs Info.InfoCode Info.InfoConcDefs.
+From PV Require Import Base.IO Info.InfoDefs Info.InfoCode Info.InfoConcDefs Info.InfoConcRegDefs.
 Extraction Language OCaml.
 (* coqc runs from coq/ (coq_makefile), so the path is relative to it *)
 Extraction "extracted/info.ml" io_witness code_fixes init step destroy_all nodupb
-  cinit cstep c_all_done.
+  cinit cstep c_all_done rinit rstep r_all_done.
